@@ -853,3 +853,9 @@ def rule_repair_temp_fresh(cx):
                  "repair_corrupted_wal_segment opens `repair_temp` with Wal::open (which appends to an existing segment) without removing what an earlier, crashed "
                  "repair left there: the repaired segment becomes leftover + copy, the store fails to open (`still corrupted after repair`) and the next repair cuts "
                  "records that lay wholly before the damage")
+
+
+def from_highest_segment_on_disk(f, o):
+    """the value derives from a listing of the WAL directory (directly or through a helper of the WAL manager)"""
+    pats = {"wal::get_segment_range", "get_segment_range", "wal::list_segment_ids", "list_segment_ids"}
+    return any((c.names & pats) or f.call_may_reach(c, pats) for c in o.calls)
